@@ -97,6 +97,21 @@ def runOp (c : Conn) (op : String) : Option (String × Conn) :=
     match c.sendFrame (createFrame p op fin) with
     | (.ok n, c) => some (s!"N:{n}", c)
     | (.error e, c) => some (exnOut e, c)
+  | ["sendt", cps] => do
+    let cps ← if cps == "-" then some [] else (cps.splitOn ".").mapM String.toNat?
+    match c.sendText cps with
+    | (.ok n, c) => some (s!"N:{n}", c)
+    | (.error e, c) => some (exnOut e, c)
+  | ["pingt", cps] => do
+    let cps ← if cps == "-" then some [] else (cps.splitOn ".").mapM String.toNat?
+    match c.pingText cps with
+    | (.ok _, c) => some ("ok", c)
+    | (.error e, c) => some (exnOut e, c)
+  | ["pongt", cps] => do
+    let cps ← if cps == "-" then some [] else (cps.splitOn ".").mapM String.toNat?
+    match c.pongText cps with
+    | (.ok _, c) => some ("ok", c)
+    | (.error e, c) => some (exnOut e, c)
   | "ping" :: ps => do
     let p ← parseBytes (String.intercalate ":" ps)
     match c.ping p with
